@@ -1059,7 +1059,6 @@ class Terminal:
         if write:
             offset = self.pdo_out_off
             size = self.pdo_out_sz
-            start = 1
         else:
             offset = self.pdo_in_off
             size = self.pdo_in_sz
@@ -1067,7 +1066,10 @@ class Terminal:
         assert size is not None
         assert offset is not None
 
-        index = start - self.fmmu_used[start::-1].index(None) - 1
+        if write:  # lowest free FMMU for outputs, highest free for inputs
+            index = self.fmmu_used.index(None)
+        else:
+            index = start - self.fmmu_used[start::-1].index(None) - 1
 
         self.fmmu_used[index] = logical
         try:
